@@ -75,16 +75,21 @@ static int ops()
 }
 
 // ------------------------------------------------------------------------------------------------ oracle
-// Direct check of the property on the implementation: exhaustive for T = int8_t (results that would overflow
-// int8_t are skipped, as the property says), boundary sets for int32_t and double.  Prints one line per failing
-// (operation, operands) -- at most `cap` per operation -- and a summary.
+// Direct check of the property on the implementation: exhaustive for the 8-bit element types int8_t and uint8_t
+// (results that would overflow the type are skipped, as the property says), boundary sets for int32_t, uint32_t,
+// uint64_t and double, and + - * on boundary and sampled operands of the 32- and 64-bit integer types with the
+// reference computed in 128-bit arithmetic.  The class is a template: "for every element type" includes the
+// unsigned ones, where T(-1) is the largest value and every intermediate that is negative in Z wraps, so an
+// implementation that is right on all signed types may still be wrong there.  Prints one line per failing
+// (operation, operands) -- at most three per operation and element type -- and a summary.
 static long long cases = 0, fails = 0;
-static int printed[64];
+static int printed[1024];
+static int id_base = 0;  // one block of 64 operation ids per oracle call (element type), set by main
 template <typename... Args>
 static void fail(int opid, const char* fmt, Args... a)
 {
     ++fails;
-    if (printed[opid]++ < 3) {
+    if (printed[id_base + opid]++ < 3) {
         std::printf("FAIL ");
         std::printf(fmt, a...);
         std::printf("\n");
@@ -98,11 +103,12 @@ static bool mem(W x, const range_t<T>& r)
 }
 
 static int WINDOW = 12;
-static void oracle_int8()
+template <typename T>
+static void oracle_small(const char* tn)
 {
-    using T = int8_t;
+    static_assert(sizeof(T) == 1, "exhaustive enumeration with int as the wider arithmetic");
     using Q = range_t<T>;
-    const int lo = -128, hi = 127;
+    const int lo = std::numeric_limits<T>::min(), hi = std::numeric_limits<T>::max();
     // scalar operations: all a<=b, all e, membership of all x
     for (int a = lo; a <= hi; ++a)
         for (int b = a; b <= hi; ++b)
@@ -112,12 +118,12 @@ static void oracle_int8()
                 if (e < hi) {  // next_value(e) must not overflow
                     Q g = Q(r).gt((T)e);
                     int s = std::max(a, e + 1);
-                    if (!((int)g.first() == s && (int)g.last() == b)) fail(0, "gt T=int8 r=[%d,%d] e=%d got=[%d,%d] want=[%d,%d]", a, b, e, g.first(), g.last(), s, b);
+                    if (!((int)g.first() == s && (int)g.last() == b)) fail(0, "gt T=%s r=[%d,%d] e=%d got=[%d,%d] want=[%d,%d]", tn, a, b, e, g.first(), g.last(), s, b);
                 }
                 {
                     Q g = Q(r).geq((T)e);
                     int s = std::max(a, e);
-                    if (!((int)g.first() == s && (int)g.last() == b)) fail(1, "geq T=int8 r=[%d,%d] e=%d got=[%d,%d]", a, b, e, g.first(), g.last());
+                    if (!((int)g.first() == s && (int)g.last() == b)) fail(1, "geq T=%s r=[%d,%d] e=%d got=[%d,%d]", tn, a, b, e, g.first(), g.last());
                 }
                 if (e > lo) {
                     Q g = Q(r).lt((T)e);
@@ -128,40 +134,41 @@ static void oracle_int8()
                         bool want = (a <= x && x <= b && x < e);
                         if (mem<T, int>(x, g) != want) { ok = false; badx = x; break; }
                     }
-                    if (!ok) fail(2, "lt T=int8 r=[%d,%d] e=%d got=[%d,%d] x=%d member=%d but (x in r && x<e)=%d", a, b, e, g.first(), g.last(), badx, (int)mem<T, int>(badx, g), (int)(a <= badx && badx <= b && badx < e));
+                    if (!ok) fail(2, "lt T=%s r=[%d,%d] e=%d got=[%d,%d] x=%d member=%d but (x in r && x<e)=%d", tn, a, b, e, g.first(), g.last(), badx, (int)mem<T, int>(badx, g), (int)(a <= badx && badx <= b && badx < e));
                 }
                 {
                     Q g = Q(r).leq((T)e);
                     int f = std::min(b, e);
-                    if (!((int)g.first() == a && (int)g.last() == f)) fail(3, "leq T=int8 r=[%d,%d] e=%d got=[%d,%d]", a, b, e, g.first(), g.last());
+                    if (!((int)g.first() == a && (int)g.last() == f)) fail(3, "leq T=%s r=[%d,%d] e=%d got=[%d,%d]", tn, a, b, e, g.first(), g.last());
                 }
                 {
                     bool c = r.contains((T)e);
-                    if (c != (a <= e && e <= b)) fail(4, "contains T=int8 r=[%d,%d] e=%d got=%d", a, b, e, (int)c);
+                    if (c != (a <= e && e <= b)) fail(4, "contains T=%s r=[%d,%d] e=%d got=%d", tn, a, b, e, (int)c);
                     bool q = (r == (T)e);
-                    if (q != (a == e && b == e)) fail(5, "eqT T=int8 r=[%d,%d] e=%d got=%d", a, b, e, (int)q);
+                    if (q != (a == e && b == e)) fail(5, "eqT T=%s r=[%d,%d] e=%d got=%d", tn, a, b, e, (int)q);
                     Q u = r | (T)e;
-                    if (!((int)u.first() == std::min(a, e) && (int)u.last() == std::max(b, e))) fail(6, "orT T=int8 r=[%d,%d] e=%d got=[%d,%d]", a, b, e, u.first(), u.last());
+                    if (!((int)u.first() == std::min(a, e) && (int)u.last() == std::max(b, e))) fail(6, "orT T=%s r=[%d,%d] e=%d got=[%d,%d]", tn, a, b, e, u.first(), u.last());
                     Q n = r & (T)e;
                     bool nonempty = a <= e && e <= b;
-                    if (nonempty ? !((int)n.first() == e && (int)n.last() == e) : !n.empty()) fail(7, "andT T=int8 r=[%d,%d] e=%d got=[%d,%d]", a, b, e, n.first(), n.last());
+                    if (nonempty ? !((int)n.first() == e && (int)n.last() == e) : !n.empty()) fail(7, "andT T=%s r=[%d,%d] e=%d got=[%d,%d]", tn, a, b, e, n.first(), n.last());
                     if (a + e >= lo && b + e <= hi) {
                         Q p = r + (T)e;
-                        if (!((int)p.first() == a + e && (int)p.last() == b + e)) fail(8, "addT T=int8 r=[%d,%d] e=%d got=[%d,%d]", a, b, e, p.first(), p.last());
+                        if (!((int)p.first() == a + e && (int)p.last() == b + e)) fail(8, "addT T=%s r=[%d,%d] e=%d got=[%d,%d]", tn, a, b, e, p.first(), p.last());
                     }
                     if (a - e >= lo && b - e <= hi && a - e <= hi && b - e >= lo) {
                         Q p = r - (T)e;
-                        if (!((int)p.first() == a - e && (int)p.last() == b - e)) fail(9, "subT T=int8 r=[%d,%d] e=%d got=[%d,%d]", a, b, e, p.first(), p.last());
+                        if (!((int)p.first() == a - e && (int)p.last() == b - e)) fail(9, "subT T=%s r=[%d,%d] e=%d got=[%d,%d]", tn, a, b, e, p.first(), p.last());
                     }
                     int m1 = a * e, m2 = b * e;
                     if (m1 >= lo && m1 <= hi && m2 >= lo && m2 <= hi) {
                         Q p = r * (T)e;
-                        if (!((int)p.first() == std::min(m1, m2) && (int)p.last() == std::max(m1, m2))) fail(10, "mulT T=int8 r=[%d,%d] e=%d got=[%d,%d]", a, b, e, p.first(), p.last());
+                        if (!((int)p.first() == std::min(m1, m2) && (int)p.last() == std::max(m1, m2))) fail(10, "mulT T=%s r=[%d,%d] e=%d got=[%d,%d]", tn, a, b, e, p.first(), p.last());
                     }
                 }
             }
     // interval x interval: all a<=b, c<=d over a window (full int8 would be 2^30 pairs), results in int
-    const int wl = -WINDOW, wh = WINDOW;
+    // (unsigned: the same number of values, starting at 0 -- the bound where a difference or a negated operand wraps)
+    const int wl = std::is_signed_v<T> ? -WINDOW : 0, wh = std::is_signed_v<T> ? WINDOW : 2 * WINDOW;
     for (int a = wl; a <= wh; ++a)
         for (int b = a; b <= wh; ++b)
             for (int c = wl; c <= wh; ++c)
@@ -180,30 +187,34 @@ static void oracle_int8()
                         }
                     auto chk = [&](int id, const char* nm, const Q& g, int s, int f) {
                         if (s < lo || f > hi) return;
-                        if (!((int)g.first() == s && (int)g.last() == f)) fail(id, "%s T=int8 a=[%d,%d] b=[%d,%d] got=[%d,%d] want=[%d,%d]", nm, a, b, c, d, g.first(), g.last(), s, f);
+                        if (!((int)g.first() == s && (int)g.last() == f)) fail(id, "%s T=%s a=[%d,%d] b=[%d,%d] got=[%d,%d] want=[%d,%d]", nm, tn, a, b, c, d, g.first(), g.last(), s, f);
                     };
                     if (mn >= lo && mx <= hi) chk(11, "mulR", r * o, mn, mx);
                     if (an >= lo && ax <= hi) chk(12, "addR", r + o, an, ax);
                     if (sn >= lo && sx <= hi) chk(13, "subR", r - o, sn, sx);
+                    // the in-place forms are separate code: the same tightest interval
+                    if (mn >= lo && mx <= hi) { Q t = r; t *= o; chk(41, "mulAssignR", t, mn, mx); }
+                    if (an >= lo && ax <= hi) { Q t = r; t += o; chk(42, "addAssignR", t, an, ax); }
+                    if (sn >= lo && sx <= hi) { Q t = r; t -= o; chk(43, "subAssignR", t, sn, sx); }
                     chk(14, "orR", r | o, std::min(a, c), std::max(b, d));
                     {
                         Q n = r & o;
                         int s = std::max(a, c), f = std::min(b, d);
-                        if (s <= f ? !((int)n.first() == s && (int)n.last() == f) : !n.empty()) fail(15, "andR T=int8 a=[%d,%d] b=[%d,%d] got=[%d,%d]", a, b, c, d, n.first(), n.last());
+                        if (s <= f ? !((int)n.first() == s && (int)n.last() == f) : !n.empty()) fail(15, "andR T=%s a=[%d,%d] b=[%d,%d] got=[%d,%d]", tn, a, b, c, d, n.first(), n.last());
                     }
-                    if (r.intersects(o) != overlap) fail(16, "intersects T=int8 a=[%d,%d] b=[%d,%d] got=%d", a, b, c, d, (int)r.intersects(o));
-                    if ((r && o) != overlap) fail(16, "overlaps T=int8 a=[%d,%d] b=[%d,%d]", a, b, c, d);
-                    if ((r == o) != (a == c && b == d)) fail(17, "eqR T=int8 a=[%d,%d] b=[%d,%d]", a, b, c, d);
-                    if ((r < o) != (b < c)) fail(18, "ltop T=int8 a=[%d,%d] b=[%d,%d]", a, b, c, d);
-                    if ((r > o) != (d < a)) fail(19, "gtop T=int8 a=[%d,%d] b=[%d,%d]", a, b, c, d);
-                    if ((r <= o) != !(d < a)) fail(20, "leop T=int8 a=[%d,%d] b=[%d,%d]", a, b, c, d);
-                    if ((r >= o) != !(b < c)) fail(21, "geop T=int8 a=[%d,%d] b=[%d,%d]", a, b, c, d);
+                    if (r.intersects(o) != overlap) fail(16, "intersects T=%s a=[%d,%d] b=[%d,%d] got=%d", tn, a, b, c, d, (int)r.intersects(o));
+                    if ((r && o) != overlap) fail(16, "overlaps T=%s a=[%d,%d] b=[%d,%d]", tn, a, b, c, d);
+                    if ((r == o) != (a == c && b == d)) fail(17, "eqR T=%s a=[%d,%d] b=[%d,%d]", tn, a, b, c, d);
+                    if ((r < o) != (b < c)) fail(18, "ltop T=%s a=[%d,%d] b=[%d,%d]", tn, a, b, c, d);
+                    if ((r > o) != (d < a)) fail(19, "gtop T=%s a=[%d,%d] b=[%d,%d]", tn, a, b, c, d);
+                    if ((r <= o) != !(d < a)) fail(20, "leop T=%s a=[%d,%d] b=[%d,%d]", tn, a, b, c, d);
+                    if ((r >= o) != !(b < c)) fail(21, "geop T=%s a=[%d,%d] b=[%d,%d]", tn, a, b, c, d);
                 }
     for (int a = lo; a <= hi; ++a)
         for (int b = a; b <= hi; ++b) {
             ++cases;
             Q r((T)a, (T)b);
-            if (r.size() != (uint32_t)(b - a + 1)) fail(22, "size T=int8 r=[%d,%d] got=%u", a, b, r.size());
+            if (r.size() != (uint32_t)(b - a + 1)) fail(22, "size T=%s r=[%d,%d] got=%u", tn, a, b, r.size());
             // the operand may be the object itself: same set semantics as for two equal operands
             {
                 int mn = 1 << 30, mx = -(1 << 30);
@@ -211,7 +222,7 @@ static void oracle_int8()
                     for (int y = a; y <= b; ++y) { mn = std::min(mn, x * y); mx = std::max(mx, x * y); }
                 auto chk2 = [&](int id, const char* nm, const Q& g, int s, int f) {
                     if (s < lo || f > hi) return;
-                    if (!((int)g.first() == s && (int)g.last() == f)) fail(id, "%s T=int8 r=[%d,%d] got=[%d,%d] want=[%d,%d]", nm, a, b, g.first(), g.last(), s, f);
+                    if (!((int)g.first() == s && (int)g.last() == f)) fail(id, "%s T=%s r=[%d,%d] got=[%d,%d] want=[%d,%d]", nm, tn, a, b, g.first(), g.last(), s, f);
                 };
                 { Q t = r; t += t; chk2(25, "addSelf", t, a + a, b + b); }
                 { Q t = r; t -= t; chk2(26, "subSelf", t, a - b, b - a); }
@@ -219,7 +230,7 @@ static void oracle_int8()
                 { Q t = r; t &= t; chk2(28, "andSelf", t, a, b); }
                 { Q t = r; t |= t; chk2(29, "orSelf", t, a, b); }
             }
-            if (r.empty()) fail(23, "empty T=int8 r=[%d,%d]", a, b);
+            if (r.empty()) fail(23, "empty T=%s r=[%d,%d]", tn, a, b);
         }
 }
 
@@ -273,16 +284,105 @@ static void oracle_boundary(const char* tn, const std::vector<T>& vals)
         }
 }
 
+// + - * (interval and element operand, binary and in-place form) for the 32- and 64-bit integer types: every pair of
+// non-empty intervals over `vals` (boundary values; 0 and the values next to it matter for the unsigned types) and
+// `samples` random pairs; the reference is the tightest interval around the pointwise results, computed in 128-bit
+// arithmetic (for * the extremes are at the corners); operand pairs whose result leaves T are skipped.
+static unsigned long long lcg_state = 1;
+static unsigned long long lcg()
+{
+    lcg_state = lcg_state * 6364136223846793005ULL + 1442695040888963407ULL;
+    return lcg_state >> 11;
+}
+template <typename T>
+static void arith_case(const char* tn, T a, T b, T c, T d)
+{
+    using Q = range_t<T>;
+    using W = __int128;
+    const W lo = std::numeric_limits<T>::min(), hi = std::numeric_limits<T>::max();
+    ++cases;
+    auto show = [](T s, T f) { return "[" + std::to_string(s) + "," + std::to_string(f) + "]"; };
+    auto chk = [&](int id, const char* nm, W s, W f, auto&& compute) {
+        if (s < lo || f > hi) return;  // overflows T: outside the property
+        Q g = compute();
+        if (!((W)g.first() == s && (W)g.last() == f))
+            fail(id, "%s T=%s a=%s b=%s got=%s want=%s", nm, tn, show(a, b).c_str(), show(c, d).c_str(), show(g.first(), g.last()).c_str(), show((T)s, (T)f).c_str());
+    };
+    const Q r(a, b), o(c, d);
+    W p1, p2, p3, p4;  // (two uint64_t factors can exceed even 128 bits with a sign: such products are out of T anyway)
+    const bool wide = __builtin_mul_overflow((W)a, (W)c, &p1) | __builtin_mul_overflow((W)a, (W)d, &p2) |
+                      __builtin_mul_overflow((W)b, (W)c, &p3) | __builtin_mul_overflow((W)b, (W)d, &p4);
+    if (wide) p1 = p2 = p3 = p4 = hi + 1;
+    const W mn = std::min(std::min(p1, p2), std::min(p3, p4)), mx = std::max(std::max(p1, p2), std::max(p3, p4));
+    chk(11, "mulR", mn, mx, [&] { return r * o; });
+    chk(12, "addR", (W)a + c, (W)b + d, [&] { return r + o; });
+    chk(13, "subR", (W)a - d, (W)b - c, [&] { return r - o; });
+    chk(41, "mulAssignR", mn, mx, [&] { Q t = r; t *= o; return t; });
+    chk(42, "addAssignR", (W)a + c, (W)b + d, [&] { Q t = r; t += o; return t; });
+    chk(43, "subAssignR", (W)a - d, (W)b - c, [&] { Q t = r; t -= o; return t; });
+    // element operand: c
+    chk(8, "addT", (W)a + c, (W)b + c, [&] { return r + c; });
+    chk(9, "subT", (W)a - c, (W)b - c, [&] { return r - c; });
+    chk(10, "mulT", std::min(p1, p3), std::max(p1, p3), [&] { return r * c; });
+}
+template <typename T>
+static void oracle_arith(const char* tn, const std::vector<T>& vals, int samples)
+{
+    for (T a : vals)
+        for (T b : vals)
+            for (T c : vals)
+                for (T d : vals)
+                    if (a <= b && c <= d) arith_case<T>(tn, a, b, c, d);
+    // sampled: small magnitudes (products fit), a subtrahend / factor that starts at 0 or 1 in a quarter of the cases
+    for (int i = 0; i < samples; ++i) {
+        const int bits = 1 + (int)(lcg() % (sizeof(T) * 4));
+        auto pick = [&]() -> T {
+            long long v = (long long)(lcg() % (1ULL << bits));
+            if (std::is_signed_v<T> && (lcg() & 1)) v = -v;
+            return (T)v;
+        };
+        T a = pick(), b = pick(), c = pick(), d = pick();
+        if (b < a) std::swap(a, b);
+        if (i % 4 == 0) c = (T)(i / 4 % 2);
+        if (d < c) std::swap(c, d);
+        arith_case<T>(tn, a, b, c, d);
+    }
+}
+
 int main(int argc, char** argv)
 {
     if (argc > 1 && !std::strcmp(argv[1], "ops"))
         return ops();
     if (argc > 2) WINDOW = std::atoi(argv[2]);
-    oracle_int8();
+    if (argc > 3) lcg_state = std::strtoull(argv[3], nullptr, 10);
+    const int samples = 2000 * WINDOW;
+    oracle_small<int8_t>("int8");
+    id_base += 64;
+    oracle_small<uint8_t>("uint8");
+    id_base += 64;
     {
         using N = std::numeric_limits<int32_t>;
         oracle_boundary<int32_t>("int32", {N::min(), N::min() + 1, -2, -1, 0, 1, 2, N::max() - 1, N::max()});
+        oracle_arith<int32_t>("int32", {N::min(), N::min() + 1, -46341, -5, -2, -1, 0, 1, 2, 5, 46340, N::max() - 1, N::max()}, samples);
     }
+    id_base += 64;
+    {
+        using N = std::numeric_limits<int64_t>;
+        oracle_arith<int64_t>("int64", {N::min(), N::min() + 1, -3037000500LL, -5, -2, -1, 0, 1, 2, 5, 3037000499LL, N::max() - 1, N::max()}, samples);
+    }
+    id_base += 64;
+    {
+        using N = std::numeric_limits<uint32_t>;
+        oracle_boundary<uint32_t>("uint32", {0, 1, 2, 5, 65535, 65536, N::max() / 2, N::max() / 2 + 1, N::max() - 1, N::max()});
+        oracle_arith<uint32_t>("uint32", {0, 1, 2, 5, 10, 20, 65535, 65536, N::max() / 2, N::max() / 2 + 1, N::max() - 1, N::max()}, samples);
+    }
+    id_base += 64;
+    {
+        using N = std::numeric_limits<uint64_t>;
+        oracle_boundary<uint64_t>("uint64", {0, 1, 2, 5, 4294967295ULL, 4294967296ULL, N::max() / 2, N::max() / 2 + 1, N::max() - 1, N::max()});
+        oracle_arith<uint64_t>("uint64", {0, 1, 2, 5, 10, 20, 4294967295ULL, 4294967296ULL, N::max() / 2, N::max() / 2 + 1, N::max() - 1, N::max()}, samples);
+    }
+    id_base += 64;
     {
         using N = std::numeric_limits<double>;
         oracle_boundary<double>("double", {-N::infinity(), N::lowest(), -1.0, -N::denorm_min(), 0.0, N::denorm_min(), 1.0,
